@@ -210,7 +210,7 @@ def hist_parse(x0, style):
 
     def run(s):
         try:
-            return repr(parse_docstring(s))
+            return parse_docstring(s)
         except Exception as e:
             return "raised " + type(e).__name__
 
